@@ -11,7 +11,7 @@ from .core import run_model
 MUT = ("put", "del", "bcommit")
 
 
-def run_crash(ctx, ops, mode="io", cuts="few", level2=False, dumpfiles=True, reader=None, from_op=0, timeout=600):
+def run_crash(ctx, ops, mode="io", cuts="few", level2=False, dumpfiles=True, reader=None, from_op=0, timeout=600, postmerge=False):
     base = ctx.scratch.fresh()
     try:
         opsf = os.path.join(base, "w.ops")
@@ -20,6 +20,8 @@ def run_crash(ctx, ops, mode="io", cuts="few", level2=False, dumpfiles=True, rea
         args = [core.XKV, "crash", base, opsf, mode, "cuts=" + cuts, "from=%d" % from_op]
         if level2:
             args.append("level2=1")
+        if postmerge:
+            args.append("postmerge=1")
         if dumpfiles:
             args.append("dumpfiles=1")
         if reader:
@@ -90,7 +92,7 @@ def fmt_state(m, extra=None):
     return "dump n=%d %s" % (len(ks), ",".join("%s=%s" % (k.hex(), core.fmt_val(mm[k])) for k in ks))
 
 
-EXTRA_KEY = {bytes.fromhex("7a7a7a"): b"\x5a"}
+EXTRA_KEY = {bytes.fromhex("7a7a7a"): b"\x5a", bytes.fromhex("7a7a7b"): b"\x5b"}
 
 
 def evaluate(res, ctx, name, ops, recs, err, rc, check_model=True, pid="C03", classify=None):
@@ -155,13 +157,22 @@ def evaluate(res, ctx, name, ops, recs, err, rc, check_model=True, pid="C03", cl
         res.distinct.add("%s|%s|%s" % (im["ev"], bool(cut), im["dump"]))
         j = allowed.index(im["dump"]) + lo
         if not im.get("level2"):
-            if im.get("put") != "ok" or im.get("close") != "ok" or im.get("open2") != "ok":
+            if im.get("put") != "ok" or im.get("bcommit") != "ok" or im.get("close") != "ok" or im.get("open2") != "ok":
                 res.violation(what + ": recovered database does not keep working: put=%s close=%s reopen=%s" % (
                     im.get("put"), im.get("close"), im.get("open2")), replay, key=key)
                 continue
-            if im.get("dump2") != fmt_state(states[j], EXTRA_KEY):
-                res.violation(what + ": after one more Put and a restart the mapping is %s, expected %s" % (
-                    str(im.get("dump2"))[:200], fmt_state(states[j], EXTRA_KEY)[:200]), replay, key=key)
+            extra = dict(EXTRA_KEY)
+            expect2 = dict(states[j])
+            expect2.update(extra)
+            if im.get("victim"):
+                expect2.pop(bytes.fromhex(im["victim"]) if im["victim"] != "-" else b"", None)
+                if im.get("del") != "ok" or im.get("merge", "").split(" ")[0] not in ("ok", "err:mergeids"):
+                    res.violation(what + ": after recovery Delete/Merge failed: del=%s merge=%s" % (im.get("del"), im.get("merge")), replay, key=key)
+                    continue
+            if im.get("dump2") != fmt_state(expect2):
+                res.violation(what + ": after recovery, one more Put, a batch%s and a restart the mapping is %s, expected %s" % (
+                    (", deleting %s and a complete Merge" % im["victim"]) if im.get("victim") else "",
+                    str(im.get("dump2"))[:200], fmt_state(expect2)[:200]), replay, key=key)
                 continue
             # accounting after recovery (C17 relation) from the package's own scan
             st, sc = im.get("stat", ""), im.get("scanstat", "")
@@ -232,15 +243,26 @@ def evaluate(res, ctx, name, ops, recs, err, rc, check_model=True, pid="C03", cl
                 d, f = fname.split("/")
                 hx, zext = blob.rsplit(":", 1)
                 seg.append("setfile %s %s %s %s" % (d, f, hx or "-", zext))
-            seg += ["open d " + cfg, "dump", "stat", "put 7a7a7a x5a", "close", "files d", "files d-merge", "open d " + cfg, "dump", "close"]
+            post = []
+            if im.get("merge") is not None:
+                mres = im["merge"]
+                order = mres.split(" order=", 1)[1] if " order=" in mres else ""
+                post = (["del " + im["victim"]] if im.get("victim") else []) + ["merge order=" + order]
+            seg += ["open d " + cfg, "dump", "stat", "put 7a7a7a x5a", "bnew 0 7999999", "bput 7a7a7b x5b", "bcommit", "bdrop"] + post + ["close",
+                    "files d", "files d-merge", "open d " + cfg, "dump", "close"]
             spans.append((len(mops), len(seg)))
             mops += seg
         mout = run_model(mops, timeout=600)
         for (a, n), (im, what, replay) in zip(spans, model_jobs):
-            got = mout[a + n - 10:a + n]
-            exp = [im["open"], im["dump"], im.get("stat"), im.get("put"), im.get("close"), im.get("listing"), im.get("mergedir"),
-                   im.get("open2"), im.get("dump2"), "ok"]
-            labels = ["open", "dump", "stat", "put", "close", "files d", "files d-merge", "open2", "dump2", "close2"]
+            npost = (1 if im.get("merge") is not None else 0) + (1 if im.get("merge") is not None and im.get("victim") else 0)
+            got = mout[a + n - 14 - npost:a + n]
+            got = got[:8] + got[8 + npost:]
+            exp = [im["open"], im["dump"], im.get("stat"), im.get("put"), "ok", "ok", im.get("bcommit"), "ok", im.get("close"), im.get("listing"),
+                   im.get("mergedir"), im.get("open2"), im.get("dump2"), "ok"]
+            labels = ["open", "dump", "stat", "put", "bnew", "bput", "bcommit", "bdrop", "close", "files d", "files d-merge", "open2", "dump2", "close2"]
+            if npost:
+                # file layout after the post-recovery merge is compared through the dumps only
+                exp[9] = exp[10] = None
             for lab, g, x in zip(labels, got, exp):
                 if g == "?" or x is None:
                     continue
